@@ -162,3 +162,26 @@ for _m in ['parse_ipv4', 'parse_ipv6', 'parse_opaque_host', 'parse_host', 'parse
            'get_host', 'get_hostname', 'get_port', 'get_search', 'get_hash', 'get_username', 'get_password', 'get_protocol', 'update_base_port', 'clear_port',
            'update_base_hostname', 'has_empty_hostname', 'has_hostname', 'has_valid_domain', 'set_scheme', 'copy_scheme', 'set_protocol_as_file', 'has_port']:
     F('url_' + _m, U + _m, cls='url', mangled=r'_ZNK?3ada3url\d+%s(B5cxx11)?E.*' % _m)
+F('usp_sort', 'ada::url_search_params::sort', cls='usp')
+F('idna_ascii_map', 'ada::idna::ascii_map')
+F('idna_is_ascii_sv', 'ada::idna::is_ascii', mangled=r'_ZN3ada4idna8is_asciiESt17basic_string_viewIcSt11char_traitsIcEE')
+F('idna_is_ascii_u32', 'ada::idna::is_ascii', mangled=r'_ZN3ada4idna8is_asciiESt17basic_string_viewIDiSt11char_traitsIDiEE')
+F('idna_from_ascii_to_ascii', 'ada::idna::from_ascii_to_ascii')
+F('idna_char_to_digit_value', 'ada::idna::char_to_digit_value')
+F('idna_digit_to_char', 'ada::idna::digit_to_char')
+F('idna_adapt', 'ada::idna::adapt')
+F('idna_utf8_to_utf32', 'ada::idna::utf8_to_utf32')
+F('idna_utf32_to_utf8', 'ada::idna::utf32_to_utf8')
+F('idna_utf8_length_from_utf32', 'ada::idna::utf8_length_from_utf32')
+F('idna_utf32_length_from_utf8', 'ada::idna::utf32_length_from_utf8')
+F('idna_is_forbidden_domain_code_point', 'ada::idna::is_forbidden_domain_code_point')
+F('idna_contains_forbidden_domain_code_point', 'ada::idna::contains_forbidden_domain_code_point')
+F('idna_map_out', 'ada::idna::map', mangled=r'_ZN3ada4idna3mapESt17basic_string_viewIDiSt11char_traitsIDiEERNSt7__cxx1112basic_stringIDiS3_SaIDiEEE')
+F('idna_normalize', 'ada::idna::normalize')
+F('idna_is_already_nfc', 'ada::idna::is_already_nfc')
+F('idna_is_label_valid', 'ada::idna::is_label_valid')
+F('idna_utf32_to_punycode', 'ada::idna::utf32_to_punycode')
+F('idna_punycode_to_utf32', 'ada::idna::punycode_to_utf32')
+F('idna_verify_punycode', 'ada::idna::verify_punycode')
+F('idna_append_ascii_label', 'ada::idna::append_ascii_label')
+F('idna_is_ace_prefix', 'ada::idna::is_ace_prefix')
